@@ -3,6 +3,7 @@ import RsModel.Props.C01
 import RsModel.Lemmas.AttrTree
 import RsModel.Lemmas.ModeCold
 import RsModel.Lemmas.LeavesAttr
+import RsModel.Lemmas.ColdStrip
 /-!
 # C13 — composition laws: nesting, neutral elements and wrappers change nothing
 -/
@@ -176,5 +177,12 @@ example : Src.WD (fun _ => some [97, 59, 98]) true
       = (Src.concat (.cons (.replace (.orig [97, 59, 98] [102]) [⟨0, 1, [88], none, 1⟩]) (.cons (.rawStr [59]) .nil))).leaves := by
   refine ⟨⟨Src.wd_replace _ _ _ rfl trivial, ⟨trivial, trivial⟩, trivial⟩, ?_⟩
   simp [Src.leaves, SrcList.leavesL]
+
+
+/-- **CachedSource wrappers on cold caches change nothing, at any depth and in any number**: streams (every mode), `get_map` and
+text of the tree equal those of the tree without the wrappers -/
+theorem c13_cached_cold_any_depth (s : Src) (o : Opts) (σ : Store) (hn : s.ids.Nodup) (hc : Cold σ s.ids) :
+    (s.stream o σ).1 = (s.strip.stream o []).1 ∧ (getMap s o σ).1 = (getMap s.strip o []).1 ∧ s.src = s.strip.src :=
+  ⟨Src.stream_strip s o σ hn hc, getMap_strip s o σ hn hc, (Src.strip_src s).symm⟩
 
 end Rs
